@@ -161,6 +161,7 @@ type forgedEvent struct {
 	op         string // tampering operator
 	admissible bool
 	why        string
+	decorated  bool // carries valid membership requests as payload
 }
 
 // signEvent signs ev's body with key k.
@@ -219,8 +220,24 @@ func (c *Cluster) forge(victim, byz *SimNode, r *RNG, opName string) *forgedEven
 	ts := int64(946684800 + c.stepNo)
 	tx := [][]byte{[]byte(fmt.Sprintf("byz-%d-%d", c.stepNo, r.Intn(1000)))}
 	f := &forgedEvent{op: opName}
+	// Inadmissible events may carry perfectly valid payload (a membership request
+	// correctly signed by the peer it concerns, copied from public traffic or made
+	// up): it must not make the event any more acceptable.
+	var itxs []hg.InternalTransaction
+	if opName != "valid" && opName != "valid-no-other-parent" && !strings.HasPrefix(opName, "itx-") && r.Bool(0.4) {
+		sk := deriveKey(c.seed, 700+r.Intn(50))
+		itx := hg.NewInternalTransactionJoin(*newPeerFromKey(sk))
+		itx.Sign(sk)
+		itxs = append(itxs, itx)
+		if r.Bool(0.3) {
+			l := hg.NewInternalTransactionLeave(*byz.peer())
+			l.Sign(byz.key)
+			itxs = append(itxs, l)
+		}
+		f.decorated = true
+	}
 	mk := func(creator *SimNode, idx int, sp, op string) *hg.Event {
-		ev := newEvent(creator, idx, sp, op, tx, nil, nil, ts)
+		ev := newEvent(creator, idx, sp, op, tx, itxs, nil, ts)
 		signEvent(ev, creator)
 		return ev
 	}
@@ -236,7 +253,7 @@ func (c *Cluster) forge(victim, byz *SimNode, r *RNG, opName string) *forgedEven
 		f.ev.Body.Timestamp++ // body altered after signing
 		f.why = "signature does not match the body"
 	case "signed-by-other-key":
-		f.ev = newEvent(byz, spIdx+1, sp, other, tx, nil, nil, ts)
+		f.ev = newEvent(byz, spIdx+1, sp, other, tx, itxs, nil, ts)
 		stranger := &SimNode{key: deriveKey(c.seed, 900+r.Intn(50))}
 		signEvent(f.ev, stranger)
 		f.why = "signed by a key that is not the stated creator's"
@@ -307,7 +324,7 @@ func (c *Cluster) forge(victim, byz *SimNode, r *RNG, opName string) *forgedEven
 			return nil
 		}
 		hsp, hidx := lastOf(victim, h)
-		f.ev = newEvent(h, hidx+1, hsp, other, tx, nil, nil, ts)
+		f.ev = newEvent(h, hidx+1, hsp, other, tx, itxs, nil, ts)
 		signEvent(f.ev, byz)
 		f.why = "claims another creator, signed by the forger"
 	case "itx-signed-by-other":
